@@ -10,7 +10,7 @@ from .c15 import utils_documents, UKEYS
 from .c16 import dump_to_jv
 from .c17 import sound_and_usable, append_everywhere, edit, EDITS
 
-CASE_KEYS = [b"a", b"A", b"key", b"Key", b"KEY", b"b", b"B", b"x", b"X", b"ab", b"aB", b"", b"a/b", b"~"]
+CASE_KEYS = [b"a", b"A", b"key", b"Key", b"KEY", b"b", b"B", b"x", b"X", b"ab", b"aB", b"", b"a/b", b"~", b"\xc3\xa9", b"\xff", b"Z", b"z\x80"]
 
 
 def merge_documents(max_leaves=10, min_leaves=1, nulls=True):
@@ -125,8 +125,14 @@ class C18(Prop):
         target = case["target"]
         patch = derive_patch(target, rnd) if case["derived"] else case["patch"]
         want = rfc.merge_apply(target, patch)
-        pt = printing.build_tree(lib, target)
-        pp = printing.build_tree(lib, patch)
+        arena = printing.Arena(lib)
+        if case["rseed"] % 3 == 0:
+            pt = printing.build_flagged(lib, target, arena, rnd)
+            pp = printing.build_flagged(lib, patch, arena, rnd)
+            stats.cls("ownership_flags_variant")
+        else:
+            pt = printing.build_tree(lib, target)
+            pp = printing.build_tree(lib, patch)
         res = None
         try:
             before = lib.dump(pp)[0]
@@ -160,6 +166,7 @@ class C18(Prop):
             for p in (pt, pp, res):
                 if p:
                     lib.cJSON_Delete(p)
+            arena.close()
 
     def run_generate(self, lib, case, stats):
         rnd = random.Random(case["rseed"])
@@ -171,8 +178,14 @@ class C18(Prop):
             for e in case["edits"]:
                 to, _ = edit(to, e, rnd)
         to = strip_null_members(to)
-        pf = printing.build_tree(lib, frm)
-        pt = printing.build_tree(lib, to)
+        arena = printing.Arena(lib)
+        if case["rseed"] % 3 == 1:
+            pf = printing.build_flagged(lib, frm, arena, rnd)
+            pt = printing.build_flagged(lib, to, arena, rnd)
+            stats.cls("ownership_flags_variant")
+        else:
+            pf = printing.build_tree(lib, frm)
+            pt = printing.build_tree(lib, to)
         patch = None
         dup = None
         res = None
@@ -220,6 +233,7 @@ class C18(Prop):
             for p in (pf, pt, patch, dup, res):
                 if p:
                     lib.cJSON_Delete(p)
+            arena.close()
 
 
 PROP = C18()
